@@ -1,6 +1,10 @@
 //! RuntimeCycle domain (C06 scheduling, C07 process image, C08 faults / safe state).
 //!
-//! `cycle-gen`  — seeded random scripts (configuration + environment steps), one JSON per line.
+//! `cycle-gen`  — seeded random scripts (configuration + environment steps), one JSON per line:
+//!                `--runs N` scripts whose configurations associate only PROGRAMs with tasks, then
+//!                `--fb-runs M` scripts that also associate FUNCTION_BLOCK instances of the programs
+//!                with tasks (`PROGRAM P0 WITH T1 : PT0 (f0 WITH T2, f1 WITH T1);`), drawn from a
+//!                second random stream so that the first N scripts do not depend on M.
 //! `cycle-run`  — renders each script's configuration as an ST source, builds the real runtime
 //!                with two logging I/O drivers, performs the steps through the public API and
 //!                records one ndjson event per specification action with the projected state.
@@ -108,15 +112,39 @@ pub fn gen(args: &[String]) -> i32 {
     let mut o = Out::create(out);
     let always_restart = arg_u64(args, "--restarts", 0) == 1;
     for _ in 0..runs {
-        o.line(&gen_script(&mut rng, always_restart));
+        o.line(&gen_script(&mut rng, always_restart, false));
+    }
+    let fb_runs = arg_u64(args, "--fb-runs", 0) as usize;
+    let mut rng = StdRng::seed_from_u64(seed ^ 0xfb7a_5c0d);
+    for _ in 0..fb_runs {
+        o.line(&gen_script(&mut rng, always_restart, true));
     }
     o.flush();
     0
 }
 
-fn gen_script(rng: &mut StdRng, always_restart: bool) -> J {
+/// Place an output / memory binding of size `sz` on bits nobody uses yet.
+fn place_output(rng: &mut StdRng, used: &mut std::collections::HashMap<&str, Vec<bool>>, oarea: &str, sz: &str) -> Option<(usize, usize)> {
+    let n = nbytes(sz);
+    for _ in 0..30 {
+        let (ob, obit) = (rng.gen_range(0..=IMG - n), rng.gen_range(0..8usize));
+        let sp = span(sz, ob, obit);
+        if sp.iter().all(|b| !used[oarea][*b]) {
+            for b in sp {
+                used.get_mut(oarea).unwrap()[b] = true;
+            }
+            return Some((ob, obit));
+        }
+    }
+    None
+}
+
+/// `fbmode`: the configuration also associates FB instances of its programs with tasks.  Every
+/// random draw that exists only for that is guarded by `fbmode`, so the scripts generated with
+/// `fbmode = false` are the ones generated before FB associations were added.
+fn gen_script(rng: &mut StdRng, always_restart: bool, fbmode: bool) -> J {
     let singles = ["s1", "s2"];
-    let nt = rng.gen_range(0..=4usize);
+    let nt = if fbmode { rng.gen_range(1..=4usize) } else { rng.gen_range(0..=4usize) };
     let np = rng.gen_range(1..=4usize);
     let mut tasks = Vec::new();
     for i in 0..nt {
@@ -166,6 +194,43 @@ fn gen_script(rng: &mut StdRng, always_restart: bool) -> J {
         }
         programs.push(json!({"name": format!("P{j}"), "task": task, "copies": copies}));
     }
+    // FB instances of the programs, each associated with a task of its own: the task of its program,
+    // another task, a task that has no program at all; instances of background programs; several
+    // instances per program and per task (declaration order); bodies that write bound outputs
+    let mut fbs: Vec<J> = Vec::new();
+    if fbmode {
+        for j in 0..np {
+            let ptask = programs[j]["task"].as_str().unwrap().to_string();
+            let nf = if j == 0 && np == 1 { rng.gen_range(1..=3) } else { [0, 1, 1, 2, 3][rng.gen_range(0..5)] };
+            for k in 0..nf {
+                let task = if !ptask.is_empty() && rng.gen_bool(0.3) { ptask.clone() } else { format!("T{}", rng.gen_range(0..nt)) };
+                let mut copies = Vec::new();
+                for c in 0..[0, 0, 1, 1, 2][rng.gen_range(0..5)] {
+                    let (sz, tys) = TYPES[rng.gen_range(0..TYPES.len())];
+                    let ty = tys[rng.gen_range(0..tys.len())];
+                    let n = nbytes(sz);
+                    let (ib, ibit) = (rng.gen_range(0..=IMG - n), rng.gen_range(0..8usize));
+                    let oarea = if rng.gen_bool(0.8) { "Q" } else { "M" };
+                    let Some((ob, obit)) = place_output(rng, &mut used, oarea, sz) else { continue };
+                    // an FB body reaches bound variables through VAR_EXTERNAL: they are globals
+                    let (iv, ov) = (format!("i{j}f{k}_{c}"), format!("o{j}f{k}_{c}"));
+                    bindings.push(json!({"var": iv, "area": "I", "size": sz, "byte": ib, "bit": if sz == "X" { ibit } else { 0 }, "ty": ty, "owner": -1}));
+                    bindings.push(json!({"var": ov, "area": oarea, "size": sz, "byte": ob, "bit": if sz == "X" { obit } else { 0 }, "ty": ty, "owner": -1}));
+                    vars0.insert(iv.clone(), json!(vec![0; n]));
+                    vars0.insert(ov.clone(), json!(vec![0; n]));
+                    let via = ["stmt", "stmt", "func", "fb"][rng.gen_range(0..4)];
+                    copies.push(json!({"from": iv, "to": ov, "via": via}));
+                }
+                // every fourth instance is a member of another (never executed) FB instance of the
+                // program: the association names it by a two-part path, `g1.f WITH T0`
+                let inst = if rng.gen_bool(0.25) { format!("g{k}.f") } else { format!("f{k}") };
+                fbs.push(json!({"name": format!("P{j}.{inst}"), "prog": format!("P{j}"), "inst": inst, "task": task, "copies": copies}));
+            }
+        }
+        if fbs.is_empty() {
+            fbs.push(json!({"name": "P0.f0", "prog": "P0", "inst": "f0", "task": format!("T{}", rng.gen_range(0..nt)), "copies": []}));
+        }
+    }
     let pols = ["halt", "safe_halt", "safe_halt", "restart"];
     let policy = pols[rng.gen_range(0..4)];
     let wd = pols[rng.gen_range(0..4)];
@@ -190,14 +255,18 @@ fn gen_script(rng: &mut StdRng, always_restart: bool) -> J {
     let restarts = always_restart || rng.gen_bool(0.4);
     let mut counters = Vec::new();
     for j in 0..np {
-        counters.push(json!({"name": format!("cnt{j}"), "owner": j + 1, "scope": "program", "qual": "none", "shape": "INT"}));
+        counters.push(json!({"name": format!("cnt{j}"), "owner": j + 1, "fb": 0, "scope": "program", "qual": "none", "shape": "INT"}));
+    }
+    // the member counter of every task-associated FB instance (instance state: persists between activations)
+    for f in 0..fbs.len() {
+        counters.push(json!({"name": format!("fbn{f}"), "owner": 0, "fb": f + 1, "scope": "fb", "qual": "none", "shape": "INT"}));
     }
     if restarts {
         for c in 0..rng.gen_range(2..=6) {
             let scope = if rng.gen_bool(0.4) { "global" } else { "program" };
             let qual = ["none", "retain", "retain", "nonretain", "persistent"][rng.gen_range(0..5)];
             let shape = SHAPES[rng.gen_range(0..SHAPES.len())];
-            counters.push(json!({"name": format!("k{c}"), "owner": rng.gen_range(1..=np), "scope": scope, "qual": qual, "shape": shape}));
+            counters.push(json!({"name": format!("k{c}"), "owner": rng.gen_range(1..=np), "fb": 0, "scope": scope, "qual": qual, "shape": shape}));
         }
     }
     let mut sinit = Map::new();
@@ -205,7 +274,7 @@ fn gen_script(rng: &mut StdRng, always_restart: bool) -> J {
         sinit.insert(s.to_string(), json!(restarts && rng.gen_bool(0.3)));
     }
     let access: Vec<usize> = (0..np).filter(|_| restarts && rng.gen_bool(0.5)).collect();
-    let cfg = json!({"tasks": tasks, "programs": programs, "bindings": bindings, "drivers": drivers,
+    let cfg = json!({"tasks": tasks, "programs": programs, "fbs": fbs, "bindings": bindings, "drivers": drivers,
                      "policy": policy, "wd": wd, "safe": safe, "singles": singles, "imgLen": IMG,
                      "counters": counters, "sinit": sinit, "access": access, "vars0": vars0});
     let mut steps = Vec::new();
@@ -252,7 +321,12 @@ fn gen_script(rng: &mut StdRng, always_restart: bool) -> J {
             let val: Vec<u8> = if sz == "X" { vec![rng.gen_range(0..2)] } else { (0..n).map(|_| rng.gen_range(0..=255)).collect() };
             steps.push(json!({"a": "DebugIoWrite", "addr": {"area": "I", "size": sz, "byte": b, "bit": if sz == "X" { bit } else { 0 }}, "val": val}));
         }
-        if faulty && rng.gen_bool(0.2) {
+        if fbmode && faulty && rng.gen_bool(0.35) {
+            // a fault at a program point of a task-driven FB instance
+            let f = &fbs[rng.gen_range(0..fbs.len())];
+            let nst = f["copies"].as_array().unwrap().len();
+            steps.push(json!({"a": "Inject", "prog": f["name"], "at": rng.gen_range(1..=nst + 1)}));
+        } else if faulty && rng.gen_bool(0.2) {
             let j = rng.gen_range(0..np);
             let nst = programs[j]["copies"].as_array().unwrap().len();
             steps.push(json!({"a": "Inject", "prog": format!("P{j}"), "at": rng.gen_range(1..=nst + 1)}));
@@ -320,12 +394,17 @@ pub fn render_source(cfg: &J) -> String {
         src.push_str(&format!("TASK {} ({});\n", t["name"].as_str().unwrap(), parts.join(", ")));
     }
     let programs = cfg["programs"].as_array().unwrap();
+    let fbs: Vec<J> = cfg["fbs"].as_array().cloned().unwrap_or_default();
     for (j, p) in programs.iter().enumerate() {
         let task = p["task"].as_str().unwrap();
+        // FB instances of this program that the configuration associates with a task
+        let list: Vec<String> = fbs.iter().filter(|f| f["prog"] == p["name"])
+            .map(|f| format!("{} WITH {}", f["inst"].as_str().unwrap(), f["task"].as_str().unwrap())).collect();
+        let list = if list.is_empty() { String::new() } else { format!(" ({})", list.join(", ")) };
         if task.is_empty() {
-            src.push_str(&format!("PROGRAM P{j} : PT{j};\n"));
+            src.push_str(&format!("PROGRAM P{j} : PT{j}{list};\n"));
         } else {
-            src.push_str(&format!("PROGRAM P{j} WITH {task} : PT{j};\n"));
+            src.push_str(&format!("PROGRAM P{j} WITH {task} : PT{j}{list};\n"));
         }
     }
     let access: Vec<u64> = cfg["access"].as_array().map(|a| a.iter().map(|x| x.as_u64().unwrap()).collect()).unwrap_or_default();
@@ -343,9 +422,6 @@ pub fn render_source(cfg: &J) -> String {
     if counters.iter().any(|c| c["shape"] == "ENUM") {
         src = format!("TYPE VColor : (VRed, VGreen, VBlue); END_TYPE\n{src}");
     }
-    let ty_of = |var: &str| -> String {
-        bindings.iter().find(|b| b["var"] == var).unwrap()["ty"].as_str().unwrap().to_string()
-    };
     let mut helper_types = std::collections::BTreeSet::new();
     for (j, p) in programs.iter().enumerate() {
         let mut decls = String::new();
@@ -371,32 +447,39 @@ pub fn render_source(cfg: &J) -> String {
             body.push_str(&bump);
             body.push('\n');
         }
-        for (k, c) in copies.iter().enumerate() {
-            let (from, to) = (c["from"].as_str().unwrap(), c["to"].as_str().unwrap());
-            let ty = ty_of(from);
-            if bindings.iter().any(|b| b["var"] == from && (b["owner"] == json!(-1))) {
-                ext.push_str(&format!(" {from} : {ty}; {to} : {ty};"));
-            }
-            let code = j * 100 + k + 1;
-            match c["via"].as_str().unwrap() {
-                "func" => {
-                    helper_types.insert(ty.clone());
-                    body.push_str(&format!("{to} := FCopy_{ty}(x := {from}, fire := (inj = INT#{code}), z := zero);\n"));
-                }
-                "fb" => {
-                    helper_types.insert(ty.clone());
-                    decls.push_str(&format!("  fb{k} : FbCopy_{ty};\n"));
-                    body.push_str(&format!("fb{k}(x := {from}, fire := (inj = INT#{code}), z := zero);\n{to} := fb{k}.y;\n"));
-                }
-                _ => {
-                    body.push_str(&format!("IF inj = INT#{code} THEN zz := INT#1 / zero; END_IF;\n{to} := {from};\n"));
-                }
+        render_copies(copies, j * 100, bindings, &mut decls, &mut ext, &mut helper_types, &mut body);
+        // the instances the configuration associates with tasks are declared here and never called
+        // by the program body: they execute under their task only
+        for (f, fb) in fbs.iter().enumerate().filter(|(_, fb)| fb["prog"] == p["name"]) {
+            match fb["inst"].as_str().unwrap().split_once('.') {
+                Some((outer, _)) => decls.push_str(&format!("  {outer} : GT{f};\n")),
+                None => decls.push_str(&format!("  {} : FT{f};\n", fb["inst"].as_str().unwrap())),
             }
         }
         body.push_str(&format!("IF inj = INT#{} THEN zz := INT#1 / zero; END_IF;\n", j * 100 + copies.len() + 1));
         src.push_str(&format!(
             "PROGRAM PT{j}\nVAR_EXTERNAL elog : ARRAY[0..31] OF INT; lgn : INT; inj : INT; zero : INT;{ext} END_VAR\nVAR\n{decls}  zz : INT;\nEND_VAR\n{qdecls}{body}END_PROGRAM\n"
         ));
+    }
+    // one FUNCTION_BLOCK type per task-associated instance: logs its execution (code 100 + index),
+    // bumps its member counter, then copies like a program body, with a fault point before every
+    // copy and after the last (inj = 1000 + 10 * index + point)
+    for (f, fb) in fbs.iter().enumerate() {
+        let copies = fb["copies"].as_array().unwrap();
+        let (mut decls, mut ext) = (String::new(), String::new());
+        let mut body = format!("elog[lgn] := INT#{}; lgn := lgn + INT#1;\nn := n + INT#1;\n", 100 + f);
+        render_copies(copies, 1000 + f * 10, bindings, &mut decls, &mut ext, &mut helper_types, &mut body);
+        body.push_str(&format!("IF inj = INT#{} THEN zz := INT#1 / zero; END_IF;\n", 1000 + f * 10 + copies.len() + 1));
+        src.push_str(&format!(
+            "FUNCTION_BLOCK FT{f}\nVAR_EXTERNAL elog : ARRAY[0..31] OF INT; lgn : INT; inj : INT; zero : INT;{ext} END_VAR\nVAR\n{decls}  n : INT := INT#3;\n  zz : INT;\nEND_VAR\n{body}END_FUNCTION_BLOCK\n"
+        ));
+        if let Some((_, member)) = fb["inst"].as_str().unwrap().split_once('.') {
+            // the enclosing instance is neither called nor associated with a task: if it ever
+            // executes, its log entry (900 + index) names no item of the specification
+            src.push_str(&format!(
+                "FUNCTION_BLOCK GT{f}\nVAR_EXTERNAL elog : ARRAY[0..31] OF INT; lgn : INT; END_VAR\nVAR\n  {member} : FT{f};\nEND_VAR\nelog[lgn] := INT#{}; lgn := lgn + INT#1;\nEND_FUNCTION_BLOCK\n", 900 + f
+            ));
+        }
     }
     for ty in helper_types {
         src.push_str(&format!(
@@ -407,6 +490,37 @@ pub fn render_source(cfg: &J) -> String {
         ));
     }
     src
+}
+
+/// The copies of a program / FB body: `to := from` directly, through a FUNCTION or through a nested
+/// FB instance, each preceded by a fault point `inj = base + k + 1`.
+fn render_copies(copies: &[J], base: usize, bindings: &[J], decls: &mut String, ext: &mut String,
+                 helper_types: &mut std::collections::BTreeSet<String>, body: &mut String) {
+    let ty_of = |var: &str| -> String {
+        bindings.iter().find(|b| b["var"] == var).unwrap()["ty"].as_str().unwrap().to_string()
+    };
+    for (k, c) in copies.iter().enumerate() {
+        let (from, to) = (c["from"].as_str().unwrap(), c["to"].as_str().unwrap());
+        let ty = ty_of(from);
+        if bindings.iter().any(|b| b["var"] == from && (b["owner"] == json!(-1))) {
+            ext.push_str(&format!(" {from} : {ty}; {to} : {ty};"));
+        }
+        let code = base + k + 1;
+        match c["via"].as_str().unwrap() {
+            "func" => {
+                helper_types.insert(ty.clone());
+                body.push_str(&format!("{to} := FCopy_{ty}(x := {from}, fire := (inj = INT#{code}), z := zero);\n"));
+            }
+            "fb" => {
+                helper_types.insert(ty.clone());
+                decls.push_str(&format!("  fb{k} : FbCopy_{ty};\n"));
+                body.push_str(&format!("fb{k}(x := {from}, fire := (inj = INT#{code}), z := zero);\n{to} := fb{k}.y;\n"));
+            }
+            _ => {
+                body.push_str(&format!("IF inj = INT#{code} THEN zz := INT#1 / zero; END_IF;\n{to} := {from};\n"));
+            }
+        }
+    }
 }
 
 // ------------------------------------------------------------------ drivers
@@ -475,8 +589,8 @@ pub fn run(args: &[String]) -> i32 {
     let scripts = read_ndjson(arg(args, "--scripts").expect("--scripts"));
     let mut o = Out::create(arg(args, "--out").expect("--out"));
     let mut rejected = 0usize;
-    for sc in &scripts {
-        if !run_script(sc, &mut o) {
+    for (si, sc) in scripts.iter().enumerate() {
+        if !run_script(sc, si, &mut o) {
             rejected += 1;
         }
     }
@@ -515,6 +629,36 @@ fn setup(cfg: &J, src: &str, sh: &Arc<Mutex<Shared>>, retain_path: &std::path::P
     Ok(h)
 }
 
+/// A script written before FB-task associations existed (a stored replay file) has no `fbs` list
+/// and no `fb` field in its counters: complete it, so that the specification sees one vocabulary.
+fn normalise(cfg: &J) -> J {
+    let mut cfg = cfg.clone();
+    if cfg.get("fbs").is_none() {
+        cfg["fbs"] = json!([]);
+    }
+    if let Some(cs) = cfg["counters"].as_array_mut() {
+        for c in cs {
+            if c.get("fb").is_none() {
+                c["fb"] = json!(0);
+            }
+        }
+    }
+    cfg
+}
+
+/// A member of the FB instance `inst` declared in program instance `prog`, read through the
+/// instance path the task association names (so a disconnected association is visible).
+fn fb_member(h: &TestHarness, prog: &str, inst: &str, member: &str) -> Value {
+    let st = h.runtime().storage();
+    let Some(Value::Instance(pid)) = st.get_global(prog) else { return Value::Null };
+    let mut id = *pid;
+    for part in inst.split('.') {
+        let Some(Value::Instance(next)) = st.get_instance_var(id, part) else { return Value::Null };
+        id = *next;
+    }
+    st.get_instance_var(id, member).cloned().unwrap_or(Value::Null)
+}
+
 /// Projection shared by Cycle / Restart / PowerCycle / SetAccess events.
 fn project(h: &TestHarness, cfg: &J) -> J {
     let tasks = cfg["tasks"].as_array().unwrap();
@@ -530,7 +674,13 @@ fn project(h: &TestHarness, cfg: &J) -> J {
     let mut ctags = Map::new();
     for c in cfg["counters"].as_array().unwrap() {
         let (n, shape) = (c["name"].as_str().unwrap(), c["shape"].as_str().unwrap());
-        let v = h.get_output(n).unwrap_or(Value::Null);
+        let v = match c["fb"].as_u64().unwrap_or(0) {
+            0 => h.get_output(n).unwrap_or(Value::Null),
+            f => {
+                let fb = &cfg["fbs"][f as usize - 1];
+                fb_member(h, fb["prog"].as_str().unwrap(), fb["inst"].as_str().unwrap(), "n")
+            }
+        };
         ctr.insert(n.to_string(), json!(decode_count(shape, &v)));
         ctags.insert(n.to_string(), json!(shape_tag(shape, &v)));
     }
@@ -550,8 +700,8 @@ fn merge(mut a: J, b: J) -> J {
     a
 }
 
-fn run_script(sc: &J, o: &mut Out) -> bool {
-    let cfg = &sc["cfg"];
+fn run_script(sc: &J, si: usize, o: &mut Out) -> bool {
+    let cfg = &normalise(&sc["cfg"]);
     let src = render_source(cfg);
     let sh = Arc::new(Mutex::new(Shared { log: vec![], src: vec![], fail: (0, String::new()) }));
     for dr in cfg["drivers"].as_array().unwrap() {
@@ -570,7 +720,7 @@ fn run_script(sc: &J, o: &mut Out) -> bool {
     };
     let want_dbg = sc["dbg"].as_bool().unwrap_or(false);
     let mut dbg = if want_dbg { Some(h.runtime_mut().enable_debug()) } else { None };
-    o.line(&json!({"a": "Reset", "cfg": cfg, "src": src}));
+    o.line(&json!({"a": "Reset", "cfg": cfg, "src": src, "si": si}));
     for st in sc["steps"].as_array().unwrap() {
         match st["a"].as_str().unwrap() {
             "Advance" => {
@@ -586,8 +736,13 @@ fn run_script(sc: &J, o: &mut Out) -> bool {
                 o.line(st);
             }
             "Inject" => {
-                let j: usize = st["prog"].as_str().unwrap()[1..].parse().unwrap();
-                h.set_input("inj", Value::Int((j * 100 + st["at"].as_u64().unwrap() as usize) as i16));
+                // a program point of a program ("P2") or of a task-associated FB instance ("P2.f0")
+                let name = st["prog"].as_str().unwrap();
+                let base = match cfg["fbs"].as_array().unwrap().iter().position(|f| f["name"] == name) {
+                    Some(f) => 1000 + f * 10,
+                    None => name[1..].parse::<usize>().unwrap() * 100,
+                };
+                h.set_input("inj", Value::Int((base + st["at"].as_u64().unwrap() as usize) as i16));
                 o.line(st);
             }
             "FailDriver" => {
@@ -680,6 +835,7 @@ fn run_script(sc: &J, o: &mut Out) -> bool {
                 };
                 let exec: Vec<String> = match h.get_output("elog") {
                     Some(Value::Array(a)) => a.elements.iter().take(n).map(|v| match v {
+                        Value::Int(i) if *i >= 100 => cfg["fbs"].get((*i as usize).wrapping_sub(100)).and_then(|f| f["name"].as_str()).map_or(format!("?{i}"), str::to_string),
                         Value::Int(i) => format!("P{i}"),
                         o => format!("{o:?}"),
                     }).collect(),
